@@ -342,9 +342,10 @@ class HedSchema(HedSchemaBase):
         if schema_namespace and schema_namespace[-1] != ":":
             schema_namespace += ":"
 
-        if schema_namespace and not schema_namespace[:-1].isalpha():
+        # Tags written with a non-ASCII namespace are rejected by the pre-8.3 character rules.
+        if schema_namespace and not (schema_namespace[:-1].isalpha() and schema_namespace.isascii()):
             raise HedFileError(HedExceptions.INVALID_LIBRARY_PREFIX,
-                               "Schema namespace must contain only alpha characters",
+                               "Schema namespace must contain only ASCII alpha characters",
                                self.filename)
 
         self._namespace = schema_namespace
